@@ -151,6 +151,19 @@ impl Drop for SchedGuard {
     }
 }
 
+thread_local! {
+    static EXIT_GUARD: std::cell::RefCell<Option<SchedGuard>> = const { std::cell::RefCell::new(None) };
+}
+/// Announces the schedule point `name` when the calling thread ends (armed once per thread).
+pub(crate) fn arm_thread_exit(name: &'static str) {
+    EXIT_GUARD.with(|g| {
+        let mut g = g.borrow_mut();
+        if g.is_none() {
+            *g = Some(SchedGuard(name));
+        }
+    });
+}
+
 /// An open log file whose `write` calls pass a file-system point first.
 pub(crate) struct FaultyFile {
     file: std::fs::File,
